@@ -203,6 +203,7 @@ def check(chk):
     _c02u._unstack_guarded(_RLu(chk, "MIRROR.state.stack", "MIRROR.unstack"), "MIRROR.state.stack.guarded")
     # transform(inverse_transform(s)) returns s: the reconstruction carries the coordinates in the fitted order
     _c02u._unstack_order(_RLu(chk, "MIRROR.state.stack", "MIRROR.unstack"), "MIRROR.state.stack.order")
+    _c02u._dataset_unstack_scope(_RLu(chk, "MIRROR.state.dataset", "MIRROR.unstack.dataset"), "MIRROR.state.dataset.unstack_scope")
     _affine(chk)
     _stages(chk)
     _scores_identity(chk)
